@@ -84,6 +84,9 @@ def link_level_check(a, b, before: str, after: str):
 
 def gen_case(rng):
     a = rng.choice(NAMES)
+    reldir = rng.random() < 0.1
+    if reldir:
+        a = rng.choice(["zeta", "z_notes", "zz"])
     b = rng.choice([n for n in NAMES if n != a] + ["new/place/" + a.split("/")[-1], a + "2"])
     files = {}
     if rng.random() < 0.2 and "." not in a and "." not in b:
@@ -107,7 +110,7 @@ def gen_case(rng):
     if rng.random() < 0.3:
         files["plain.txt"] = f"not a zorg file [[{a}]]\n"
     return {"src": a + (".zo" if src_ext else ""), "dst": b + (".zo" if rng.random() < 0.3 else ""), "files": files, "mkdst": rng.random() < 0.93,
-            "symlink": rng.random() < 0.15}
+            "symlink": (not reldir) and rng.random() < 0.15, "reldir": reldir}
 
 
 def run_impl(ctx, case, zdir: Path, cfg: Path):
@@ -133,7 +136,18 @@ def run_impl(ctx, case, zdir: Path, cfg: Path):
         (zdir / dst).parent.mkdir(parents=True, exist_ok=True)
     try:
         a1, a2 = (str(zdir / case["src"]), str(zdir / case["dst"])) if case.get("symlink") else (case["src"], case["dst"])
-        rc, out, err = Z.zorg_main(zdir, "file", "rename", a1, a2, config=cfg)
+        if case.get("reldir"):
+            # the notes directory given as a relative path whose name is a prefix of the page's name (`--dir z`, page `zeta`)
+            import os
+
+            cwd = os.getcwd()
+            os.chdir(zdir.parent)
+            try:
+                rc, out, err = Z.zorg_main(Path(zdir.name), "file", "rename", a1, a2, config=cfg)
+            finally:
+                os.chdir(cwd)
+        else:
+            rc, out, err = Z.zorg_main(zdir, "file", "rename", a1, a2, config=cfg)
         exc = None
     except Exception as e:  # noqa
         rc, exc = None, type(e).__name__
